@@ -30,6 +30,7 @@ CompileTags(I, HT, inp, res) ==
      \cup Tag(res.bv > ro, "C07 value-above-optimum")
      \cup Tag(res.bsol.some /\ ~FeasibleSolution(I, res.bsol.decs, res.bv), "C07 solution-infeasible")
 
+CoverCheckable(I, root) == (IF I.family = "lifted" THEN I.m ELSE 2) ^ (IF StaticOrder(I) THEN I.n - root.depth ELSE I.n) <= 1500
 \* cs: the set of sub-problems handed out by drain_cutset after a relaxed compilation that is not exact
 CutsetTags(I, HT, inp, res, cs) ==
   IF ~(res.ok /\ inp.type = "relaxed" /\ ~res.exact) THEN {}
@@ -38,6 +39,7 @@ CutsetTags(I, HT, inp, res, cs) ==
           Tag(\E c \in cs : ~ExactSubProblem(I, c), "C08 node-not-exact")
      \cup Tag(\E c \in cs : c.depth <= root.depth \/ (c.depth = root.depth /\ c.st = root.st), "C08 no-progress")
      \cup Tag(\E c \in cs : SpOpt(I, HT, c) > inp.best_lb /\ c.ub < SpOpt(I, HT, c), "C08 bound-below-completion")
-     \cup Tag(\E p \in Completions(I, root) : /\ Plus(root.value, p[2]) > bar
+     \* (the completions of the root are enumerated: only when there are at most ~1500 of them)
+     \cup Tag(CoverCheckable(I, root) /\ \E p \in Completions(I, root) : /\ Plus(root.value, p[2]) > bar
                                                /\ ~\E c \in cs : c.depth > root.depth /\ Through(I, root, c, p), "C08 not-covered")
 =============================================================================
